@@ -89,11 +89,16 @@ def build_and_run(ctx, tag, modules, features=FEATURES, extra_deps="", per_crate
 def select_shapes(ctx, core, n_core, n_random, mode_ok=lambda s: True):
     rng = random.Random(ctx.seed * 7919 + 13)
     core = [s for s in core if mode_ok(s)]
+    # shapes marked "always" (regression shapes for faults that need one exact shape) survive every sampling
+    must = [s for s in core if s.extra.get("always")]
     if n_core < len(core):
+        core = [s for s in core if not s.extra.get("always")]
+        n_core = max(1, n_core - len(must))
         # stratified: keep every k-th with a seed-dependent offset, plus a random fill
         step = len(core) / n_core
         off = rng.random() * step
         picked = [core[int(off + i * step) % len(core)] for i in range(n_core)]
+        picked = must + picked
     else:
         picked = list(core)
     seen = {s.key() for s in picked}
